@@ -36,7 +36,7 @@ BOUNDED_RULE = (
     "cases = (generated source file(s) from 22 statement shapes x filler lines before/after (comments, blank, tabs, "
     "non-ASCII, balanced markup, multi-line strings / calls / continuation lines, f-strings) | source-less code (exec / "
     "compile with a fake or missing file, eval, file deleted / truncated after loading)) x exception class x message from a "
-    "19-message adversarial set x cause chain x recursion depth {1,2,5,60}; modes = verbosity {0,1,2,4} x UTF-8 on/off x "
+    "20-message adversarial set x cause chain x recursion depth {1,2,5,60}; modes = verbosity {0,1,2,4} x UTF-8 on/off x "
     "ANSI/plain x simple/full x ignore pattern; key = (hash of the files + call + message, mode); a case is non-trivial "
     "when the rendered exception has a source file (snippet clauses apply) or a non-empty message (content clause "
     "applies); the highlighter corpus check has one case per file, non-trivial when the file is not empty"
@@ -115,6 +115,8 @@ MESSAGES = [
     "escaped \\</info> closing",
     "escaped \\<fg=nocolor>invalid style",
     "\\<error>open and \\</b> mismatched",
+    # a message that ends in a backslash (a Windows directory): the character in front of the closing tag of the report
+    "no such directory C:\\temp\\",
 ]
 
 FILLERS = [
@@ -402,7 +404,8 @@ def check_render(e, info, mode, case_class):
         # either the text of the message (tags removed, escaped tags shown as text) or, failing that, the message as it is
         want = strip_markup(message).rstrip("\n")
         if out.rstrip("\n") != want and strip_markup(out).rstrip("\n") != want:
-            fails.append(("content|simple|not-just-the-message", "simple render of %s(%r) printed %r" % (cname, message[:60], out[:120])))
+            cls = "|message-ends-in-backslash" if message.endswith("\\") else ""
+            fails.append(("content|simple|not-just-the-message" + cls, "simple render of %s(%r) printed %r" % (cname, message[:60], out[:120])))
         return fails
 
     # ---- class name, then the message pieces in order
@@ -431,7 +434,7 @@ def check_render(e, info, mode, case_class):
         if missing is None:
             break
     if missing is not None:
-        cls = "escaped-tag-in-message" if "\\<" in message else "other-message"
+        cls = "escaped-tag-in-message" if "\\<" in message else ("message-ends-in-backslash" if message.endswith("\\") else "other-message")
         fails.append(("content|full|message-text-missing|" + cls, "trace of %s(%r) does not show %r after the class name" % (cname, message[:60], missing[:60])))
 
     # ---- snippet
